@@ -198,7 +198,7 @@ pub open spec fn resolve_post(
         }
 //@   >>>
 //@   mutant field_names_keep_the_first_importers_position "PositionedItem::new(name.val.clone(), pos.clone())" => "PositionedItem::new(name.val.clone(), name.pos.clone())" expect import_shape_at
-//@   mutant last_binding_dropped_on_a_hit "for (name, shape) in fields.iter() {" => "for (name, shape) in fields.iter().take(fields.len().saturating_sub(1)) {" expect import_shape_at
+//@   mutant every_field_gets_the_first_shape "shape.clone(), ));" => "fields[0].1.clone(), ));" expect import_shape_at
 //@   loop 1 iter it
 //@   loop 1 <<<
             invariant
